@@ -22,6 +22,7 @@ mod ops_sweep;
 mod ops_sphere;
 mod ops_tiling;
 mod ops_traversal;
+mod ops_types;
 mod ops_valid;
 
 use ctx::Ctx;
@@ -130,6 +131,10 @@ fn dispatch_case(cx: &mut Ctx, n: u64, case: &Value) {
         "segmentize" => ops_extra2::segmentize_case(cx, n, case),
         "chull" => ops_extra2::chull_case(cx, n, case),
         "xtrack" => ops_extra2::xtrack_case(cx, n, case),
+        "types_pair" => ops_types::pair_case(cx, n, case),
+        "types_tri" => ops_types::tri_case(cx, n, case),
+        "types_seq" => ops_types::seq_case(cx, n, case),
+        "types_rings" => ops_types::rings_case(cx, n, case),
         "valid" => ops_valid::valid_case(cx, n, case),
         "linemeasure" => ops_linemeasure::linemeasure_case(cx, n, case),
         "linemeasure_general" => ops_linemeasure::linemeasure_general_case(cx, n, case),
